@@ -117,3 +117,73 @@ Qed.
 Example format_strip_example :
   strip_bonding_descriptors (fun _ => None) (S "C[$a]=[$b]#[<].[!]") = Ok (S "C", [(0%nat, [S "$a1"; S "$b2"; S "<3"; S "!0"])], [], []).
 Proof. vm_compute. reflexivity. Qed.
+
+(** ------------------------------------------------------------------ the same for a COARSE node [#name] *)
+Section RoundCoarse.
+  Variables (fo : float_oracle) (nm : pystr) (L : list dspec) (a0 : attrs).
+  Hypothesis Hn : body_ok ("#"%char :: nm) = true.          (* the name has no ']' and no ';' *)
+  Hypothesis Hp : fragment_node_parser fo [] = Ok a0.       (* a node without annotations *)
+  Hypothesis HL : forallb d_ok L = true.
+  Let tk := TBracket ("#"%char :: nm) None.
+  Let toks := [tk].
+  Let dc := {| d_lead := []; d_after := [map to_desc L] |}.
+  Definition coarse_text : pystr := S "[#" ++ nm ++ S "]".
+
+  Lemma items_eq_c : decorate toks dc = ITok tk :: map IDesc (map to_desc L).
+  Proof. unfold decorate, toks, dc. cbn. now rewrite app_nil_r. Qed.
+  Lemma render_eq_c : render (decorate toks dc) = coarse_text ++ fb_expected (map (fun x => (d_kl x, snd x)) L).
+  Proof.
+    rewrite items_eq_c. unfold render. cbn [flat_map render_item].
+    assert (E : render_tok tk = coarse_text).
+    { unfold tk, coarse_text. cbn [render_tok app S list_ascii_of_string]. reflexivity. }
+    rewrite E. f_equal.
+    induction L as [|x r IH]; [reflexivity|].
+    cbn [forallb] in HL. apply andb_prop in HL as [Hx Hr].
+    cbn [map flat_map]. rewrite render_desc by assumption. unfold fb_expected. cbn [map concat]. f_equal. now apply IH.
+  Qed.
+  Lemma wf_ok_c : wf toks dc = true.
+  Proof.
+    unfold wf. rewrite items_eq_c. cbn [d_after dc length toks Nat.leb andb wf_items tok_ok tk annot_ok]. rewrite Hn. cbn [andb].
+    induction L as [|x r IH]; [reflexivity|].
+    cbn [forallb] in HL. apply andb_prop in HL as [Hx Hr].
+    cbn [map wf_items is_zatom andb]. rewrite desc_ok_to_desc by assumption. cbn [andb]. now apply IH.
+  Qed.
+  Lemma not_excluded_c : excluded toks dc = false.
+  Proof.
+    unfold excluded, excluded_items, class_of. rewrite items_eq_c.
+    assert (A : has_mult (ITok tk :: map IDesc (map to_desc L)) = false).
+    { unfold has_mult. cbn [existsb orb tk]. induction L as [|x r IH]; [reflexivity|]. cbn [map existsb orb].
+      cbn [forallb] in HL. apply andb_prop in HL as [_ Hr]. now apply IH. }
+    rewrite A. reflexivity.
+  Qed.
+  Lemma spec_eq_c : strip_spec fo toks dc
+    = Ok (coarse_text, fold_left (fun d x => nd_append 0 (d_stored x) d) L [], [], nd_update 0 a0 []).
+  Proof.
+    unfold strip_spec, spec_items. rewrite items_eq_c. cbn [spec_run spec_item spec_tok tk bind]. rewrite Hp.
+    cbn [bind sinit s_n s_owner s_stack s_clean s_desc s_ez s_ann clean_tok app].
+    assert (G : forall acc, spec_run fo {| s_n := 1; s_owner := 0; s_stack := []; s_clean := "["%char :: ("#"%char :: nm) ++ ["]"%char];
+                                         s_desc := acc; s_ez := []; s_ann := nd_update 0 a0 [] |}
+                                     (map IDesc (map to_desc L))
+                            = Ok {| s_n := 1; s_owner := 0; s_stack := []; s_clean := "["%char :: ("#"%char :: nm) ++ ["]"%char];
+                                    s_desc := fold_left (fun d x => nd_append 0 (d_stored x) d) L acc; s_ez := []; s_ann := nd_update 0 a0 [] |}).
+    { induction L as [|x r IH]; intros acc; [reflexivity|].
+      cbn [forallb] in HL. apply andb_prop in HL as [Hx Hr].
+      cbn [map spec_run spec_item bind fold_left]. unfold spec_desc. cbn [s_n s_owner s_stack s_clean s_desc s_ez s_ann].
+      rewrite entry_desc by assumption. now apply IH. }
+    rewrite G. cbn [bind s_clean s_desc s_ez s_ann]. unfold coarse_text. reflexivity.
+  Qed.
+
+  (** coarse node + descriptors: writer (generated format_bonding), then reader (strip model) *)
+  Theorem format_strip_roundtrip_coarse :
+    exists fb, format_bonding (map d_stored L) = Ok fb /\
+               strip_bonding_descriptors fo (coarse_text ++ fb)
+               = Ok (coarse_text, fold_left (fun d x => nd_append 0 (d_stored x) d) L [], [], nd_update 0 a0 []).
+  Proof.
+    exists (fb_expected (map (fun x => (d_kl x, snd x)) L)). split.
+    - replace (map d_stored L) with (map (fun klo => mk_descr (fst klo) (snd klo)) (map (fun x => (d_kl x, snd x)) L))
+        by (rewrite map_map; reflexivity).
+      apply format_bonding_spec. apply Forall_forall. intros klo Hin. apply in_map_iff in Hin as [x [<- Hx]].
+      rewrite forallb_forall in HL. specialize (HL x Hx). destruct (order_cases _ HL) as [E|[E|[E|E]]]; cbn [snd]; lia.
+    - rewrite <- render_eq_c. rewrite strip_correct by (apply wf_ok_c || apply not_excluded_c). apply spec_eq_c.
+  Qed.
+End RoundCoarse.
